@@ -524,6 +524,11 @@ func (lb *LoadBalancer) RemoveBackend(name string) {
 	for _, backend := range lb.strategy.GetBackends() {
 		if backend.Name == name {
 			lb.strategy.RemoveBackend(backend)
+			// The passive failure history belongs to the removed backend, not
+			// to a backend that is later added under the same name
+			lb.healthChecks.unhealthyBackendMu.Lock()
+			delete(lb.healthChecks.unhealthyBackends, name)
+			lb.healthChecks.unhealthyBackendMu.Unlock()
 			break
 		}
 	}
